@@ -29,7 +29,7 @@ func (c09) Describe() core.Description {
 	return core.Description{
 		Level: "exploration",
 		Rule:  "per run: drawn scheme (integer in standard or scale-invariant mode / approximate) and parameters (LogN 5-7, 3-5 Q primes, 1-2 P primes), one long-lived evaluator, a pool of ciphertexts (degree 1 and 2, several levels and scales), plaintexts, vectors and scalars of every accepted Go type; history of 6-30 steps, each drawing an operation of the catalog, operands from the pool, an aliasing pattern (fresh output / out==op0 / out==op1 / op0==op1 / all equal / dirty output of larger degree or level with arbitrary content and metadata) and whether all scratch memory reachable from the evaluator is overwritten with garbage first; the step is mirrored on a freshly constructed twin evaluator with deep copies of the inputs and a zeroed output of the same shape. Non-trivial = at least one aliased, dirty or poisoned step executed and compared; distinct = distinct choice traces",
-		Real:  []string{"bgv.Evaluator (both modes) and ckks.Evaluator public operations incl. their rlwe.Evaluator / BasisExtender / Encoder internals", "bgv.Encoder / ckks.Encoder Encode and Decode on long-lived encoders", "rlwe.Encryptor / Decryptor"},
+		Real:  []string{"bgv.Evaluator (both modes) and ckks.Evaluator public operations incl. their rlwe.Evaluator / BasisExtender / Encoder internals", "bgv.Encoder / ckks.Encoder Encode and Decode on long-lived encoders", "rlwe.Encryptor / Decryptor", "ring.Ring arithmetic, NTT, rescaling and automorphism operations over a pool of polynomials (aliased / dirty outputs)", "rlwe.KeyGenerator writing into reused key objects (row-noise oracle with the simulator's knowledge of the secrets)"},
 		Stub:  []string{"scratch-memory fault injector (reflection walk over fields named buff*/buf*/tmp*/pool*)", "entropy source (deterministic crypto/rand.Reader)"},
 		Assume: []string{"scratch is discovered by field name and type; scratch kept under other names is reached only through real preceding operations", "ring elements are compared canonically (mod q); trailing identically-zero components are ignored", "an aliased call may be rejected with an error; a status (ok / error / panic) that differs between system and twin is a violation", "operations documented as in place (DropLevel, SetScale, MatchScalesAndLevel) may change only their designated operand"},
 	}
@@ -233,7 +233,13 @@ func c09Exec(f func() error) c09Status {
 func (c09) Run(ctx *core.RunCtx) {
 	ch := ctx.Ch
 	var sc *c09Scheme
-	switch ch.Draw("scheme", 3) {
+	switch ch.Weighted("scheme", []int{4, 4, 4, 2, 1}) {
+	case 3:
+		c09RingRun(ctx)
+		return
+	case 4:
+		c09KeyGenRun(ctx)
+		return
 	case 0:
 		sc = c09BGV(ctx, false)
 	case 1:
